@@ -1,6 +1,7 @@
 """C11 — restoring the page database from its backup is crash-safe."""
 import json
 import lib
+from lib import cbool
 
 SHAPES = ["json+missing", "json+emptydir", "tmpl+missing", "json+dotdir", "dir+json+emptyjson", "emptyjson+json", "dir+textfile",
           "tmpl+json+emptydir", "missing+dir", "json+tmpl", "dir", "dir+emptyjson"]
@@ -87,6 +88,7 @@ def run(run):
             cases.append(c)
     res = lib.run_impl("c11", [dict(c, _timeout=200) for c in cases], shards=lib.NCPU)
     run.extra["kill_points"] = len(cases)
+    model_tie(run, cases, res)
     for c, r in zip(cases, res):
         run.count([c["scenario"], c["n"], c["kill"], c.get("second_kill"), c.get("shape")], True, c["scenario"])
         if r.get("outcome") != "ok":
@@ -102,6 +104,49 @@ def run(run):
                                  "killed at line event %d (%s): a new context sees %s; files %r"
                                  % (c["kill"], "then reopen killed at %s" % c.get("second_kill") if c.get("second_kill") else "single kill",
                                     json.dumps(r.get("rows", r))[:300], r.get("files")), c)
+
+
+def model_tie(run, cases, res):
+    """Model/FsDb.v against the files: what is on disk after each killed flow must be a crash state of the model's flow, and
+    the model's reopen of it must show what the real reopen showed (coq/Model/FsDbObs.v)."""
+    lab = {"absent": "None", "orig": "(Some Orig)", "new": "(Some New)", "partial": "None"}
+    flab = {"absent": "Absent", "orig": "(Complete Orig)", "new": "(Complete New)", "partial": "Partial"}
+    scn = {"override": "ScOverride", "overwrite-only": "ScOverwriteOnly", "backup-only": "ScBackupOnly", "restore": "ScRestore"}
+    coq_cases, refs = [], []
+    for c, r in zip(cases, res):
+        if r.get("outcome") != "ok" or r.get("rc") not in (0, 9) or "obs" not in r:
+            continue
+        o = r["obs"]
+        if o["db"] == "partial" or o["vis"] == "partial":
+            run.correspondence_break("after the killed flow the database file itself is not a readable database", c, obs=o)
+            continue
+        n = c["n"]
+        pad = "x" * 3000 if c.get("big") else ""
+        orig = sorted(["Page %d" % i, (("orig %d " % i) + pad)[:12]] for i in range(n))
+        rows = sorted(list(x) for x in r.get("rows") or [])
+        if r.get("open") != "ok" or r.get("integrity") != ["ok"] or "rows" not in r:
+            seen = "None"
+        else:
+            seen = "(Some Orig)" if rows == orig else "(Some New)"
+        coq_cases.append("(%s, (%s, %s, %s, %s), %s, %s)" % (scn.get(c["scenario"], "ScOther"), lab[o["db"]], lab[o["vis"]],
+                                                             flab[o["bak"]], flab[o["tmp"]], cbool(bool(c.get("second_kill"))), seen))
+        refs.append((c, o))
+    bad, errs = lib.coq_eval_failing("c11o", ["Model.FsDb", "Model.FsDbObs"], "scenario * obs_t * bool * option content", coq_cases,
+                                     "fun '(sc, o, k2, seen) => Nat.eqb (check_obs sc o k2 seen) 0", chunk=400)
+    for e in errs:
+        run.correspondence_break("model evaluation failed (file observations)", None, error=e)
+    for b in bad:
+        c, o = refs[b]
+        out = lib.coq_eval_term(["Model.FsDb", "Model.FsDbObs"], "(fun '(sc, o, k2, seen) => check_obs sc o k2 seen) (%s)" % coq_cases[b])
+        why = "the files after the kill are no crash state of the model's flow" if "= 1" in out else \
+            "the model's reopen of these files shows something else than the real reopen"
+        run.correspondence_break("Model.FsDb disagrees with the code: %s (files: %r)" % (why, o), c)
+    run.extra["file_observations_checked_against_the_model"] = len(coq_cases)
+    dist = {}
+    for _, o in refs:
+        key = "%s/%s/%s/%s" % (o["db"], o["vis"], o["bak"], o["tmp"])
+        dist[key] = dist.get(key, 0) + 1
+    run.extra["file_observations"] = dist
 
 
 def replay(data):
